@@ -6,8 +6,8 @@ blank lines and comments, illegal characters).
 
 Oracle (location): k = index of the first token whose prefix the library's parser cannot extend, found by *prefix
 parsing* (no position arithmetic) and confirmed against the Earley recogniser of the bare grammar; the message must
-show the (comment-free, blank-normalised) source line of token k as its last '>' line and carets exactly over
-token k's source characters in that shown line; for end-of-input one caret just after the last token.  Lexer errors:
+show the source line of token k (verbatim, or with comments as blanks; blank-normalised) as its last '>' line and
+carets exactly over token k's source characters in that shown line; for end-of-input one caret just after the last token.  Lexer errors:
 the first character the token tiling cannot continue with (own whitespace/comment skip), raw source line, one caret.
 Oracle (suggestions): every concrete suggested string, put after the viable prefix in the source text, must be
 shifted by the parser (failure, if any, strictly after it) and be a terminal the bare grammar expects there.
@@ -29,7 +29,9 @@ RULE = ('cases = texts for parse_sql(text, "mindsdb"): token edits (delete/dup/r
 ASSUMPTIONS = ['"first token the grammar cannot accept" is located by bisection over prefix parses, i.e. assumes the LR '
                'correct-prefix property of sly (a prefix of a prefix that fails at end of input does not fail at a '
                'token); the boundary is cross-checked with the Earley recogniser of the bare grammar',
-               'a multi-line /* */ comment counts as a blank: the lines it joins are one line for the comparison',
+               'the shown line may be the verbatim source line or the line with comments replaced by blanks; runs of '
+               'blanks are not compared; a multi-line /* */ comment counts as a blank (the lines it joins may be shown '
+               'as one line)',
                'which and how many context lines precede the error line is left open (each must be a source line)',
                'suggestion acceptability = the parser shifts it after the viable prefix (weak reading: the rest of the '
                'statement need not parse)',
@@ -38,16 +40,15 @@ FLOORS = {'quick': {'tok': 2300, 'eof': 900, 'lex': 700, 'multi-line': 2900, 'co
                     'leading-blank': 1700, 'tok-after-line1': 1000, 'eof-after-line1': 450, 'lex-line3': 330,
                     'sugg-cases': 500, 'sugg-concrete-items': 1700, 'sugg:list-at-token': 100,
                     '__nontrivial__': 3000},
-          'thorough': {'tok': 35000, 'eof': 12000, 'lex': 11000, 'multi-line': 44000, 'comment-before-error': 18000,
-                       'leading-blank': 26000, 'tok-after-line1': 16000, 'eof-after-line1': 6000, 'lex-line3': 5000,
-                       'sugg-cases': 7500, 'sugg-concrete-items': 25000, 'sugg:list-at-token': 1500,
-                       '__nontrivial__': 44000}}
-N = {'quick': 1000, 'thorough': 25000}
+          'thorough': {'tok': 120000, 'eof': 40000, 'lex': 38000, 'multi-line': 145000, 'comment-before-error': 60000,
+                       'leading-blank': 85000, 'tok-after-line1': 54000, 'eof-after-line1': 21000, 'lex-line3': 16000,
+                       'sugg-cases': 25000, 'sugg-concrete-items': 84000, 'sugg:list-at-token': 5300,
+                       '__nontrivial__': 148000}}
+N = {'quick': 1000, 'thorough': 50000}
 
 COMMENT_RE = re.compile(r'--[^\n]*|/\*[\s\S]*?\*/')
 CARET_RE = re.compile(r'(-+)(\^+)')
 PLACEHOLDERS = ('[identifier]', '[number]', '[string]')
-REWRITTEN = ('QUOTE_STRING', 'DQUOTE_STRING', 'VARIABLE', 'SYSTEM_VARIABLE')
 ILLEGAL = ['#', '\\', '§', '^', '&', '!', '|', '@', 'é', '"', "'", '`', '中']
 
 _S = {}
@@ -425,6 +426,11 @@ def judge_syntax(s, kind, msg, cfg, out, sql, col):
                 col.excluded('suggestion probe rejected by a grammar action / internal error')
                 continue
             if r in ('tok', 'lex'):
+                if kind == 'tok' and len(sugg) > 1 and k > 0:
+                    # does the whole statement parse when the suggestion replaces the token *before* the offending one?
+                    alt = s[:spans[k - 1][2]] + item + ' ' + s[spans[k][2]:]
+                    feats.append('valid-if-previous-token-replaced' if status(alt)[0] == 'ok' else
+                                 'invalid-if-previous-token-replaced')
                 bad('suggestion-not-acceptable', 'make_suggestion', feats,
                     'suggested %r, but %r fails at it (%s)' % (item, text2[-60:], r))
             elif ity and ity[0] not in exp:
